@@ -1,6 +1,6 @@
 (* C10 - ds.List behaves exactly like a reference doubly-linked list (container/list). Statements only. *)
 From Coq Require Import ZArith List Bool.
-From Verif.C10_List Require Import Model Ring Proofs.
+From Verif.C10_List Require Import Model Ring Proofs Proofs2.
 Import ListNotations.
 Close Scope Z_scope.
 
@@ -12,31 +12,51 @@ Definition C10_refines_full_statement : Prop := forall h,
   zombie_free ainit h = true ->
   exists st', run init_state h = Some (st', snd (arun ainit h)) /\ R st' (fst (arun ainit h)).
 
-(* Proved for all histories over Init, PushFront, PushBack, Remove, InsertBefore, InsertAfter, MoveToFront,
-   MoveToBack and MoveAfter ([covered]); MoveBefore, PushBackList and PushFrontList are tied to container/list
-   by the correspondence check only (see notes/C10.md). *)
-Theorem C10_refines_partial : forall h,
-  forallb covered h = true -> zombie_free ainit h = true ->
-  exists st', run init_state h = Some (st', snd (arun ainit h)) /\ R st' (fst (arun ainit h)).
-Proof. intros h. exact (run_refines h init_state ainit R_init). Qed.
+(* Proved for all twelve calls: Init, PushFront, PushBack, Remove, InsertBefore, InsertAfter, MoveToFront,
+   MoveToBack, MoveBefore, MoveAfter, PushBackList, PushFrontList (the last two with the length-snapshot loop,
+   including l.PushBackList(l) / l.PushFrontList(l)). *)
+Theorem C10_refines : C10_refines_full_statement.
+Proof. intros h. exact (run_refines_full h init_state ainit R_init). Qed.
 
+(* non-vacuity: a zombie-free history with all twelve calls, self-pushes, foreign and removed handles and an
+   Init of a non-empty list; it ends with 50 elements in list 0 and 49 in list 1 *)
 Example C10_refines_nonvacuous :
-  forallb covered sample_history = true /\ zombie_free ainit sample_history = true.
-Proof. exact sample_history_ok. Qed.
+  zombie_free ainit sample_history_full = true /\
+  length (alist (fst (arun ainit sample_history_full)) 0) = 50 /\
+  option_map (fun r => length (values_rev (fst r) 1)) (run init_state sample_history_full) = Some 49.
+Proof. exact sample_history_full_ok. Qed.
 
-(* One call from any represented state (the induction step), for any covered call and non-orphaned handles. *)
+(* One call from any represented state (the induction step), for any of the twelve calls and non-orphaned handles. *)
 Theorem C10_step_refines : forall st a o,
-  R st a -> covered o = true -> existsb (is_orphan a) (handles o) = false ->
+  R st a -> existsb (is_orphan a) (handles o) = false ->
   exists st', step st o = Some (st', snd (astep a o)) /\ R st' (fst (astep a o)).
-Proof. exact step_refines. Qed.
+Proof. exact step_refines_full. Qed.
 
-(* In every represented state the observations are those of the contract: Len, Front and the forward value
-   sequence (Values/Range/ForEach) of every list ... *)
+(* In every represented state the observations are those of the contract: Len, Front, Back, the forward and the
+   reverse value sequence (Values/Range/ForEach and ForEachReverse) of every list ... *)
 Theorem C10_observations : forall st a l, R st a ->
   len st l = Z.of_nat (length (alist a l)) /\
   front st l = hd_ptr (alist a l) /\
-  values st l = map (aval a) (alist a l).
-Proof. exact obs_refines. Qed.
+  back st l = hd_ptr (rev (alist a l)) /\
+  values st l = map (aval a) (alist a l) /\
+  values_rev st l = map (aval a) (rev (alist a l)).
+Proof. exact obs_all_refines. Qed.
+
+(* ... Next, Prev and Value of every live handle (member of some list) are the contract's successor,
+   predecessor (nil at the ends, never the sentinel) and value ... *)
+Theorem C10_handle_observations : forall st a l n, R st a -> In n (alist a l) ->
+  elem_next st (El n) = option_map El (succ_of n (alist a l)) /\
+  elem_prev st (El n) = option_map El (pred_of n (alist a l)) /\
+  value_of st (El n) = aval a n.
+Proof. exact handle_obs_refines. Qed.
+
+(* ... so, end to end: after EVERY zombie-free history the model has not panicked, has returned the contract's
+   results and shows the contract's Len/Front/Back/Values/reverse Values and Prev/Next/Value of every live handle. *)
+Theorem C10_refines_observed : forall h,
+  zombie_free ainit h = true ->
+  exists st', run init_state h = Some (st', snd (arun ainit h)) /\
+              R st' (fst (arun ainit h)) /\ observed_equal st' (fst (arun ainit h)).
+Proof. exact run_refines_observed. Qed.
 
 (* ... and Prev/Next are nil on every handle that is in no list (removed or never inserted). *)
 Theorem C10_removed_handle_nil : forall st a n,
@@ -63,7 +83,7 @@ Example C10_foreign_nonvacuous :
 Proof. eexists; split; vm_compute; reflexivity. Qed.
 
 (* Move semantics (after fix eae1e74): MoveAfter(e, m) with both in list l and e <> m puts e right behind m
-   (general theorem = the MoveAfter case of C10_step_refines); the D10a regression history [1 2 3],
+   (general theorem = the MoveBefore/MoveAfter cases of C10_step_refines); the D10a regression history [1 2 3],
    MoveBefore(c, a) gives [3 1 2] and MoveAfter(a, c) gives [2 3 1], forwards and backwards ... *)
 Theorem C10_move :
   option_map (fun s => (values s 0, values_rev s 0)) (run_with step init_state d10a_before) = Some ([3; 1; 2], [2; 1; 3])%Z /\
@@ -86,9 +106,11 @@ Theorem C10_refuted_selfpush_pinned : forall st l,
   step_ts_pinned st (PushBackList l l) = Deadlock /\ step_ts_pinned st (PushFrontList l l) = Deadlock.
 Proof. exact selfpush_deadlock_pinned. Qed.
 
-Print Assumptions C10_refines_partial.
+Print Assumptions C10_refines.
 Print Assumptions C10_step_refines.
 Print Assumptions C10_observations.
+Print Assumptions C10_handle_observations.
+Print Assumptions C10_refines_observed.
 Print Assumptions C10_removed_handle_nil.
 Print Assumptions C10_foreign_noop.
 Print Assumptions C10_move.
